@@ -16,7 +16,9 @@ CHECK = dict(
     level_text="Generated-input search over scripts (1-4 per configuration, 0-6 top-level statements each, drawn from ~30 statement templates "
                "covering all 39 registered Lua functions, with objects handed from one statement to a later one through globals) x worlds (imggen image graphs placed raw in 1-3 registry repositories on two model "
                "hosts with generated feature sets and 0-2 OCI layouts) x regbot configurations (driver, defaults.parallel 0-3, per-script "
-               "and default timeout, verbosity, YAML style). Per case: (1) no model host saw a request whose method is not GET/HEAD; (2) the recursive "
+               "and default timeout, verbosity info/debug/trace, YAML style, command-line spelling, config on stdin, docker config, userAgent, blobLimit, "
+               "interval/schedule, x-* extensions, cred extras, Basic auth, rate-limit headers, sha512 content, expired script deadline, command context "
+               "cancelled at a statement boundary, empty and unparsable scripts). Per case: (1) no model host saw a request whose method is not GET/HEAD; (2) the recursive "
                "listing (type, mode, size, mtime, inode, sha256) of the directory that holds every layout (and would hold newly created ones) is "
                "unchanged; (3) when no script calls a mutating binding, the same scripts run again in normal mode on the same state log the same "
                "messages and end the same way; (4) an unprotected error() stops its script there, every script starts whatever happened to the "
